@@ -19,6 +19,8 @@ pub mod point {
     pub const POP_READ_SLOT: u32 = 7;
     pub const POP_STORE_HEAD: u32 = 8;
     pub const IS_EMPTY: u32 = 9;
+    /// pure preemption point: `pop` found the queue empty and is about to return `None`
+    pub const POP_RETURN_NONE: u32 = 10;
     pub const SRC_LOCK_PUSH: u32 = 20;
     pub const SRC_LOAD_CLOSED: u32 = 21;
     pub const SRC_TRYLOCK_POP: u32 = 22;
